@@ -13,6 +13,7 @@ in the name space of its module and the modules its names come from are compared
 """
 import json
 import os
+import re
 import subprocess
 import sys
 from fractions import Fraction
@@ -204,6 +205,8 @@ def render_module(m, oracle=False):
         lines += ["class %s:" % ABSTRACT_NAMES[i], "    pass", ""]
     for i in range(m.get("extra_public", 0)):
         lines += ["class Concrete%d:" % i, "    pass", ""]
+    for a in m.get("defs", ()):                      # further public functions (names that collide with a submodule)
+        lines += ["def %s():" % a, "    return 1", ""]
     if m["all"] is not None:
         lines.append("__all__ = [%s]" % ", ".join('"%s"' % n for n in m["all"]))
     stmts = m["stmts"]
@@ -304,8 +307,8 @@ def coq_project(nm, mods, side=None):
 # ----------------------------------------------------------------------------------------------
 # generators
 # ----------------------------------------------------------------------------------------------
-def mod(path, pkg=False, stmts=None, all_=None, abstract=0, extra_public=0):
-    return dict(path=tuple(path), pkg=pkg, stmts=stmts or [], all=all_, abstract=abstract, extra_public=extra_public)
+def mod(path, pkg=False, stmts=None, all_=None, abstract=0, extra_public=0, defs=()):
+    return dict(path=tuple(path), pkg=pkg, stmts=stmts or [], all=all_, abstract=abstract, extra_public=extra_public, defs=tuple(defs))
 
 
 def base_layout(rng, mode):
@@ -600,6 +603,166 @@ def chain_project(rng, n, cyclic):
 
 
 # ----------------------------------------------------------------------------------------------
+# name collisions: a re-exported name that is also a submodule; module names that are string prefixes of one another
+# ----------------------------------------------------------------------------------------------
+COLLIDE_REEXPORTS = ["none", "rel", "abs", "same", "bound", "later", "earlier", "deep"]
+COLLIDE_ALL = ["absent", "complete", "empty"]
+COLLIDE_WORDS = ["config", "settings", "registry", "state", "loader", "schema"]
+
+
+def collide_project(rng, how, all_mode, outer):
+    """Package P with the plain submodules helpers, other, sub.leaf and two submodules P/<w1>.py, P/<w2>.py whose names
+    collide with a name that P/__init__.py may bind by a from-import: w1 without alias (`from .helpers import w1`; helpers,
+    other, sub.leaf and the submodule w1 define a function w1, P itself does not), w2 under an alias (`from .helpers import fb as w2`).
+    how: none     nothing re-exported: `from P import n` is the submodule P.n
+         rel/abs  the name is taken from P.helpers by a relative / absolute from-import: Python binds that object in P and never
+                  imports the submodule of the same name
+         same     the name is taken from the submodule of the same name
+         bound    `from . import n`: the submodule itself is bound
+         later / earlier   two re-exports of the name, P.helpers last / first (the last binding wins)
+         deep     the name comes from a module of a subpackage (P.sub.leaf)
+    all_mode: __all__ absent, listing every bound name (and a submodule), or empty (F33 needs a non-empty incomplete one).
+    Every import form that can ask P for the name has its own importing module, outside and inside the package.
+    No other statement imports a colliding submodule by its dotted name (that would rebind the attribute of P at run time and
+    make Python's answer depend on the order in which the modules are executed)."""
+    P = (outer, "pkg") if outer else ("pkg",)
+    w1, w2 = rng.sample(COLLIDE_WORDS, 2)
+    colliding = [(w1, w1), (rng.choice(ATTRS), w2)]                   # (name in the source module, name bound in P)
+
+    def reexport(src, o, b, absolute=False):
+        if absolute:
+            return st("from", P + tuple(src), [(o, b)])
+        return st("rel", tuple(src), [(o, b)], level=1)
+
+    per_name = []
+    for j, (o, b) in enumerate(colliding):
+        if how == "rel":
+            per_name.append([reexport(("helpers",), o, b)])
+        elif how == "abs":
+            per_name.append([reexport(("helpers",), o, b, absolute=True)])
+        elif how == "same":
+            per_name.append([reexport((b,), o, b, absolute=bool(j))])
+        elif how == "bound":
+            per_name.append([st("rel", (), [(b, b)], level=1)])
+        elif how == "later":
+            per_name.append([reexport(("other",), o, b, absolute=bool(j)), reexport(("helpers",), o, b)])
+        elif how == "earlier":
+            per_name.append([reexport(("helpers",), o, b), reexport(("other",), o, b, absolute=bool(j))])
+        elif how == "deep":
+            per_name.append([reexport(("sub", "leaf"), o, b, absolute=bool(j))])
+    if rng.random() < 0.5:
+        per_name.reverse()                                              # the two names are independent of each other
+    init = [s for group in per_name for s in group]
+    bound = [b for _, b in colliding]
+    all_ = None if all_mode == "absent" else ([] if all_mode == "empty" else sorted(bound + ["helpers"]))
+    mods = [mod(P, pkg=True, stmts=init, all_=all_), mod(P + ("helpers",), defs=[w1]), mod(P + ("other",), defs=[w1]),
+            mod(P + (w1,), defs=[w1]), mod(P + (w2,)), mod(P + ("sub",), pkg=True), mod(P + ("sub", "leaf"), defs=[w1])]
+    if outer:
+        mods.append(mod((outer,), pkg=True))
+    for j, (o, n) in enumerate(colliding):
+        n2 = colliding[1 - j][1]
+        forms = [
+            (("main%d" % j,), st("from", P, [n])),
+            (("alias%d" % j,), st("from", P, [(n, "x_" + n)])),
+            (("two%d" % j,), st("from", P, [n, "other"])),
+            (("both%d" % j,), st("from", P, [(n2, "y"), n])),
+            (("late%d" % j,), st("from", P, [n], pos=rng.choice(["PDef", "PTry", "PIf", "PElse"]))),
+            (P + ("user%d" % j,), st("rel", (), [n], level=1)),
+            (P + ("ualias%d" % j,), st("rel", (), [(n, "x_" + n)], level=1)),
+            (P + ("uabs%d" % j,), st("from", P, [n])),
+            (P + ("sub", "up%d" % j), st("rel", (), [n], level=2)),
+            (P + ("sub", "upalias%d" % j), st("rel", (), [(n, "z"), "helpers"], level=2)),
+        ]
+        if outer:
+            forms.append(((outer, "cousin%d" % j), st("rel", ("pkg",), [n], level=1)))
+        for path, s in forms:
+            mods.append(mod(path, stmts=[s]))
+    rng.shuffle(mods)
+    return mods
+
+
+def collide_projects(rng):
+    out = []
+    for how in COLLIDE_REEXPORTS:
+        for a in COLLIDE_ALL:
+            out.append(collide_project(rng, how, a, None))
+        out.append(collide_project(rng, how, "absent", "outer"))
+    return out
+
+
+PREFIX_STEMS = ["core", "api", "app", "data"]
+PREFIX_TAILS = ["_utils", "lib", "2", "s", "_"]
+
+
+def rel_form(rng, base, T, take_submodule):
+    """the relative from-import that reaches module T from a file of package `base` (None if T is not below a package the
+    file lies in): `from ..a import last` (take_submodule) or `from ..a.last import attr`"""
+    for level in range(1, len(base) + 1):
+        anchor = base[:len(base) - (level - 1)]
+        if T[:len(anchor)] != anchor or len(anchor) >= len(T):
+            continue
+        if take_submodule:
+            return st("rel", T[len(anchor):-1], [T[-1]], level=level)
+        return st("rel", T[len(anchor):], [rng.choice(ATTRS)], level=level)
+    return None
+
+
+def prefix_projects(rng):
+    """Modules whose dotted names are string prefixes of one another without one lying below the other: package S next to
+    the modules S<tail>.py and the package S<tail>/ (and the module named by S minus its last letter), the same one level down
+    (S.api/ next to S.api_client.py and S.apix/).  Every module imports every other one, __init__ files included
+    (an __init__ takes modules from outside by `import x` only: a from-import there would re-export the name, F34).
+    The imports of one project follow one order of the modules (a -> b only if a comes before b: the analysis enumerates
+    simple paths through import cycles, a complete digraph on 12 modules does not finish); the two orders of a pair of
+    variants cover every ordered pair.  Variants 0-3: `import t` / `from t import attr` alternating and the other way round,
+    each in both orders; 4/5: `from parent import last` and the relative forms where the target has a parent package, both
+    orders; 6: each __init__ imports its own submodules as well (these edges are dropped on purpose, F32: exactly these and no
+    other) and a third of the other imports."""
+    S = rng.choice(PREFIX_STEMS)
+    t1, t2, t3 = rng.sample(PREFIX_TAILS, 3)
+    inner = rng.choice([x for x in ("api", "net", "rpc") if x != S])
+    paths = [((S,), True), ((S, "engine"), False), ((S + t1,), False), ((S + t2,), True), ((S + t2, "x"), False), ((S + t3,), False),
+             ((S[:-1],), False), ((S, inner), True), ((S, inner, "v1"), False), ((S, inner + "_client"), False),
+             ((S, inner + "x"), True), ((S, inner + "x", "m"), False)]
+    is_pkg = dict(paths)
+    out = []
+    rank = list(range(len(paths)))
+    rng.shuffle(rank)
+    for variant in range(7):
+        mods = [mod(p, pkg=pk) for p, pk in paths]
+        forward = variant % 2 == 0
+        variant = {0: 0, 1: 0, 2: 1, 3: 1, 4: 2, 5: 2, 6: 3}[variant]
+        for i, m in enumerate(mods):
+            A = m["path"]
+            base = A if m["pkg"] else A[:-1]                       # the package `from . import` refers to
+            for j, (T, _) in enumerate(paths):
+                if T == A:
+                    continue
+                own = m["pkg"] and T[:len(A)] == A
+                if (own and variant != 3) or (variant == 3 and not own and (i + j) % 3) or ((rank[i] < rank[j]) != forward and not own):
+                    continue
+                s = None
+                if own and not is_pkg[T] and (i + j) % 2 == 0:
+                    s = st("rel", T[len(A):], [rng.choice(ATTRS)], level=1)       # a regular re-export
+                elif m["pkg"]:
+                    s = st("abs", T)
+                elif variant == 2 and len(T) >= 2:
+                    if (i + j) % 2 == 0:
+                        s = rel_form(rng, base, T, (i + j) % 4 == 0)
+                    s = s or st("from", T[:-1], [T[-1]])
+                elif (i + j + variant) % 2:
+                    s = st("abs", T)
+                else:
+                    s = st("from", T, [rng.choice(ATTRS)])
+                if (i + j) % 5 == 0 and not (m["pkg"] and s["kind"] == "rel"):      # a re-export binds at module level
+                    s["pos"] = rand_position(rng)
+                m["stmts"].append(s)
+        rng.shuffle(mods)
+        out.append(mods)
+    return out
+
+
+# ----------------------------------------------------------------------------------------------
 # CPython oracle
 # ----------------------------------------------------------------------------------------------
 ORACLE = r'''
@@ -748,6 +911,11 @@ def main(tier):
         projects.append(("random", mode, random_project(rng, mode)))
     for i in range(60 if thorough else 16):
         projects.append(("chain", "clean", chain_project(rng, rng.randint(2, 9), rng.random() < 0.3)))
+    for rep in range(3 if thorough else 1):
+        for mods in collide_projects(rng):
+            projects.append(("collide", "clean", mods))
+        for mods in prefix_projects(rng):
+            projects.append(("prefix-names", "clean", mods))
 
     lib.log("C12: %d projects generated, %.1fs" % (len(projects), __import__("time").time() - ck.t0))
     work = lib.fresh_dir("c12")
@@ -793,6 +961,8 @@ def main(tier):
             outs = lib.coq_eval_many(jobs + xjobs, workers=10)
             xouts = outs[len(jobs):]
             for out in outs[:len(jobs)]:
+                # Coq prints a rational whose denominator is a power of ten as a decimal (3 # 10 as 0.3%Q): fan-in + fan-out = 10
+                out = re.sub(r"(-?\d+)\.(\d+)%Q", lambda m: "%d # %d" % (int(m.group(1) + m.group(2)), 10 ** len(m.group(2))), out)
                 vals = lib.parse_coq_values(out)
                 coq += vals[0::2]
                 coq_res += vals[1::2]
@@ -810,7 +980,7 @@ def main(tier):
     oracle_every = 1 if thorough else 2
     if coq is not None:
         from concurrent.futures import ThreadPoolExecutor
-        idxs = [i for i in range(len(projects)) if i % oracle_every == 0 or projects[i][0] in ("positions",)]
+        idxs = [i for i in range(len(projects)) if i % oracle_every == 0 or projects[i][0] in ("positions", "collide", "prefix-names")]
         with ThreadPoolExecutor(max_workers=6) as ex:
             futs = {i: ex.submit(cpython_oracle, projects[i][2], os.path.join(work, "p%04d" % i)) for i in idxs}
         for i in idxs:
@@ -881,7 +1051,7 @@ def main(tier):
             if mt["instability"] != inst:
                 bad = "module %s: instability %r, Ce/(Ca+Ce) = %r" % (n, mt["instability"], inst)
                 break
-            pub = len(ATTRS) + m["abstract"] + m["extra_public"]
+            pub = len(ATTRS) + m["abstract"] + m["extra_public"] + len(m.get("defs", ()))
             ab = m["abstract"] / pub
             if abs(mt["abstractness"] - ab) > 1e-12 or mt["public"] != pub:
                 bad = "module %s: abstractness %r (public %d), expected %r (public %d)" % (n, mt["abstractness"], mt["public"], ab, pub)
@@ -1010,7 +1180,16 @@ def main(tier):
         "distinct_nontrivial": len(distinct),
         "rule": "projects: positions x {runtime, TYPE_CHECKING, else of TYPE_CHECKING}; catalogue of import forms x importer location on a "
                 "layout with same-named modules in different packages; random layouts (2-3 packages, nested subpackages, re-exports, __all__) in "
-                "modes clean / implicit-relative / __all__-hides / irregular re-export; import chains with and without cycles. "
+                "modes clean / implicit-relative / __all__-hides / irregular re-export; import chains with and without cycles; "
+                "name collisions: a name re-exported by pkg/__init__.py that is also a submodule of pkg (not re-exported / taken from "
+                "another module by a relative or absolute from-import, without and under an alias / from the submodule of that name / the "
+                "submodule itself bound / two bindings in both orders / from a subpackage's module) x __all__ absent, complete, empty x "
+                "package at top level and nested x the importing forms `from pkg import n`, `n as x`, with other names, inside a "
+                "def/try/if, `from . import n` and `from .. import n` inside the package, each in its own module (every project also "
+                "through python3); module names that are string prefixes of one another without being package and submodule (pkg "
+                "next to pkg_utils.py, pkg2/, the same one level down): every ordered pair imports the other by `import t`, `from t "
+                "import a`, `from parent import t` and the relative forms, from __init__ files and ordinary modules, once with the "
+                "__init__ files importing their own submodules too. "
                 "distinct = distinct implementation edge sets",
         "input_distribution": dict(fam_count, deviation_classes_present=class_count, cpython_projects=n_oracle,
                                    cpython_statements=n_oracle_stmts, cli_reports_compared=n_cli, metric_checks=n_metric_checks),
